@@ -81,6 +81,10 @@ func c05Apply(db *wt.Whisper, op LibOp, now int64) (error, string) {
 }
 
 func runC05(e *Env, c *LibCase) {
+	if c.Syncer > 0 {
+		runC05Syncer(e, c)
+		return
+	}
 	archs := toModelArchs(c.Layout)
 	path := filepath.Join(e.Dir, "main.wsp")
 	now := c.Clock0
@@ -856,3 +860,98 @@ func withWriteLimit(limit int64, f func() error) error {
 }
 
 var sigOnce sync.Once
+
+// runC05Syncer: the history runs in one goroutine, each write followed by a
+// Sync, while a second goroutine (a periodic syncer) calls Sync on the same
+// handle; the scheduler preempts both at statements. Whenever the writer's Sync
+// returns successfully, another handle must see the writer's state.
+func runC05Syncer(e *Env, c *LibCase) {
+	if c.Syncer > 50 {
+		e.Skip("invalid-case")
+		return
+	}
+	archs := toModelArchs(c.Layout)
+	path := filepath.Join(e.Dir, "main.wsp")
+	db, err := c.Layout.create(path)
+	if err != nil {
+		e.Violate("C05.create", "Create failed: %v", err)
+		return
+	}
+	defer db.Close()
+	if err := db.Sync(); err != nil {
+		e.Violate("C05.sync", "Sync failed: %v", err)
+		return
+	}
+	s := NewSched(c.WSeed, nSites)
+	s.PreemptP = []float64{0.02, 0.1, 0.3}[c.WSeed%3]
+	if e.SchedRec != nil && e.SchedRec.Replay {
+		s.SetReplay(e.SchedRec.Choices, e.SchedRec.Preempts)
+	}
+	var mu sync.Mutex
+	viol := func(oracle, format string, args ...interface{}) {
+		mu.Lock()
+		e.Violate(oracle, format, args...)
+		mu.Unlock()
+		s.Abort("violation")
+	}
+	s.Go("W", func() {
+		now := c.Clock0
+		for i, op := range c.Ops {
+			switch op.Op {
+			case "adv":
+				now += op.D
+				if now >= math.MaxUint32-400*86400 {
+					return
+				}
+			case "upd", "many":
+				if _, pan := c05Apply(db, op, now); pan != "" {
+					return
+				}
+				if err := db.Sync(); err != nil {
+					viol("C05.sync", "Sync failed: %v", err)
+					return
+				}
+				live, lerr := c05ViewOf(db, archs, now)
+				obs, oerr := wt.Open(path, wt.WithoutFlock())
+				if lerr != nil || oerr != nil {
+					viol("C05.synced-visible", "after op %d and a successful Sync the file cannot be read: %v %v", i, lerr, oerr)
+					return
+				}
+				ov, verr := c05ViewOf(obs, archs, now)
+				obs.Close()
+				if verr != nil || live.diff(ov) != "" {
+					d := ""
+					if verr == nil {
+						d = live.diff(ov)
+					}
+					viol("C05.synced-visible", "op %d, then a Sync that returned successfully while a second goroutine was calling Sync on the same handle: another handle disagrees with the live handle: %v %s", i, verr, d)
+					return
+				}
+				e.Probe("sync-returned-while-another-goroutine-syncs-the-same-handle")
+			}
+		}
+	})
+	s.Go("S", func() {
+		for k := 0; k < c.Syncer; k++ {
+			if err := db.Sync(); err != nil {
+				viol("C05.sync", "Sync (second goroutine) failed: %v", err)
+				return
+			}
+		}
+	})
+	s.Install()
+	s.Run()
+	Uninstall()
+	e.OutSched = &SchedRec{Seed: 0, PreemptP: s.PreemptP, Choices: s.Choices, Preempts: s.Preempts}
+	e.Stats.Yields += int64(s.Yields)
+	e.Stats.Decisions += int64(s.Decisions)
+	if s.Switches > 1 {
+		e.Stats.Interleave[s.Signature()] = true
+	}
+	if len(s.Preempts) > 0 {
+		e.Fault("F9.preemption")
+	}
+	if len(s.Panics) > 0 && !e.Failed() {
+		e.Violate("C05.sync", "panic while two goroutines use one handle: %s", s.Panics[0])
+	}
+}
